@@ -2,3 +2,4 @@ INIT GenInit
 NEXT GenNext
 INVARIANT EmitCase
 CONSTANT HandsOverSendersMessage = FALSE
+CONSTANT LateSetHeaderJoins = FALSE
